@@ -344,6 +344,16 @@ var valueGens = []valueGen{
 	}},
 }
 
+// boundaryText pads with spaces so that tok begins log10(d) bytes before the
+// 128 KiB mark of the production scanner's buffer.
+func boundaryText(d int, tok string) string {
+	k := 0
+	for x := d; x >= 10; x /= 10 {
+		k++
+	}
+	return strings.Repeat(" ", 128*1024-k) + tok
+}
+
 type evalGen struct {
 	name string
 	prog func(d int) string
@@ -366,6 +376,12 @@ var evalGens = []evalGen{
 	{"text-long-comment", func(d int) string { return ";" + strings.Repeat("c", d) }},
 	{"text-long-number", func(d int) string { return strings.Repeat("9", d) }},
 	{"text-many-forms", func(d int) string { return strings.Repeat("1 ", d) }},
+	// tokens straddling the production scanner's 128 KiB read buffer: the
+	// token starts log10(d) bytes before the boundary
+	{"text-buffer-boundary-string", func(d int) string { return boundaryText(d, "\"h\u00e9llo w\u00f6rld\" (list 1)") }},
+	{"text-buffer-boundary-symbol", func(d int) string { return boundaryText(d, "(quote some-long-symbol-name)") }},
+	{"text-buffer-boundary-rawstring", func(d int) string { return boundaryText(d, `"""raw "" string""" 1`) }},
+	{"text-buffer-boundary-badutf8", func(d int) string { return boundaryText(d, "ab\xffcd") }},
 	{"text-let-nest", func(d int) string { return nestText("(let ((x 1)) ", ")", "x", d) }},
 	{"text-lambda-nest", func(d int) string { return nestText("((lambda (x) ", ") 1)", "x", d) }},
 	{"text-quasiquote-nest", func(d int) string { return nestText("(quasiquote ", ")", "x", d) }},
